@@ -27,6 +27,9 @@ C16 line-protocol driver.
                                  <opts> = `.` | a/n/d;…   a = `*` (no address) | i.k (port k of site i)   n = `-` | name
                                  d = `-` | idle seconds; through the whole adapter       → `name=:p+:q:idle|…` (by name) | `rej`
   addr <text>                    `ParseAddress` on ASCII bytes              → `ok <scheme> <host> <port> <path>` (hex) | `err`
+  norm <text>                    `ParseAddress(text).Normalize()` on ASCII bytes → `ok <scheme> <host> <port> <path>` | `err` | `v6`
+                                 (`v6`: the host contains `:`; netip's re-spelling of IPv6 literals is outside the model)
+  hp <path>                      `handle_path <path> { respond x }` through the whole adapter → `ok <matcher> <strip>` | `rej`
   lnp <scheme> <port>            the site key [<scheme>://]a.test[:<port>] through the whole adapter: the port of
                                  the listener address                       → `ok <port>` | `rej`
   rename <n> <opts>              n sites on ports 8080+i and `servers :<port> { name … }` options (i:name,…): repeated
@@ -48,6 +51,7 @@ import CaddyModel.C16.ParseGlue
 import CaddyModel.C16.BindGlue
 import CaddyModel.C16.ServerOpts
 import CaddyModel.C16.Addr
+import CaddyModel.C16.Normalize
 
 namespace CaddyModel.C16
 
@@ -281,6 +285,26 @@ def handle : List String → String
       match parseAddress b with
       | some a => "ok " ++ Hex.encode a.scheme ++ " " ++ Hex.encode a.host ++ " " ++ Hex.encode a.port ++ " " ++ Hex.encode a.path
       | none => "err"
+    | none => "bad-op"
+  | ["norm", t] =>
+    match hexField t with
+    | some b =>
+      if !asciiOnly b then "bad-op" else
+      match parseAddress b with
+      | some a =>
+        if (C13.trimSpace a.host).contains 58 then "v6" else
+        "ok " ++ Hex.encode (normalize a).scheme ++ " " ++ Hex.encode (normalize a).host ++ " " ++
+          Hex.encode (normalize a).port ++ " " ++ Hex.encode (normalize a).path
+      | none => "err"
+    | none => "bad-op"
+  | ["hp", t] =>
+    match hexField t with
+    | some b =>
+      if !b.isEmpty && b.all sitePathChar then
+        match handlePathRoute b with
+        | some (m, st) => "ok " ++ Hex.encode m ++ " " ++ Hex.encode st
+        | none => "rej"
+      else "bad-op"
     | none => "bad-op"
   | ["lnp", sc, po] =>
     match hexField sc, hexField po with
